@@ -235,12 +235,12 @@ extra8b = {
  'C04': ' Nobody derives a context with context.WithoutCancel (R7); the timeout middleware is in the chain of every route whose switch is on (R8).',
  'C05': ' The max-connections limiter is in the chain of every route whose switch is on, whatever the route\'s features (R8).',
  'C06': ' The many-rows reader returns the scanner\'s Err() once the row loop ended (R11).',
- 'C08': ' Nobody writes the ContentLength of a request it was handed (R17).',
+ 'C08': ' Nobody writes the ContentLength of a request it was handed (R17); YAML is never decoded in strict mode (R18).',
  'C11': ' A container field Execute writes is emptied by a deferred call (R13).',
- 'C13': ' The disconnection is a sticky flag set on TransientFailure/Shutdown, tested and cleared on the Ready path that notifies (R15).',
+ 'C13': ' The disconnection is a sticky flag set on TransientFailure/Shutdown, tested and cleared on the Ready path that notifies (R15); the subscription key is the target path trimmed of slashes at both ends (R16).',
  'C14': ' The row readers report a stream that broke (C06.R11 runs under C14 as R7).',
  'C15': ' Ring identity: whatever in-tree code adds to a ConsistentHash is a fmt.Stringer in the form it is added, and the fields its String() returns are written only where the object is built (R9).',
- 'C17': ' The configuration center hands the document to the format loader byte for byte (R16).',
+ 'C17': ' The configuration center hands the document to the format loader byte for byte (R16); YAML is never decoded in strict mode (R17).',
  'C19': ' SetExpire stores its argument into the lease field on every path (R10).',
  'C20': ' A constant index into a handed list in the parser package is dominated by a length test, the analyzer included (R2b; found and fixed F47).',
 }
